@@ -386,9 +386,10 @@ def _check_reads(ctx, info, meth: Unit, seen: Set[str], depth: int) -> None:
             break
     assigned: Set[str] = set()
     if init is not None:
+        bare = {id(st.target) for st in own_nodes(init.node) if isinstance(st, ast.AnnAssign) and st.value is None}
         for x in own_nodes(init.node):
             if isinstance(x, ast.Attribute) and isinstance(x.ctx, ast.Store) and isinstance(x.value, ast.Name) \
-                    and x.value.id == "self":
+                    and x.value.id == "self" and id(x) not in bare:  # ``self.x: T`` alone assigns nothing
                 assigned.add(x.attr)
     cfg = cfg_of(meth)
     for n in cfg.nodes:
